@@ -1,2 +1,58 @@
+//! `impl PartialEq<Rhs> for Lhs` of the four containers.
+
+use crate::{lean, parse_file, toks};
 use std::path::Path;
-pub fn emit(_src: &Path, _out: &mut String) {}
+use syn::{ImplItem, Item};
+
+fn squash(s: &str) -> String {
+    s.chars().filter(|c| !c.is_whitespace()).collect()
+}
+
+fn base(t: &str) -> String {
+    squash(t).split('<').next().unwrap_or("").to_string()
+}
+
+pub fn emit(src: &Path, out: &mut String) {
+    let mut items = Vec::new();
+    for f in ["rodeo.rs", "reader.rs", "resolver.rs", "threaded_rodeo.rs"] {
+        let path = src.join(f);
+        if !path.exists() {
+            continue;
+        }
+        let file = parse_file(&path);
+        for item in &file.items {
+            let Item::Impl(imp) = item else { continue };
+            let Some((_, tr, _)) = &imp.trait_ else { continue };
+            let Some(last) = tr.segments.last() else { continue };
+            if last.ident != "PartialEq" {
+                continue;
+            }
+            let lhs = base(&toks(&imp.self_ty));
+            let rhs = match &last.arguments {
+                syn::PathArguments::AngleBracketed(a) => a.args.first().map(|x| base(&toks(x))).unwrap_or_else(|| lhs.clone()),
+                _ => lhs.clone(),
+            };
+            let rhs = if rhs == "Self" { lhs.clone() } else { rhs };
+            let mut shape = format!("(.other {})", lean::s("no eq fn"));
+            for it in &imp.items {
+                if let ImplItem::Fn(func) = it {
+                    if func.sig.ident == "eq" {
+                        let body = squash(&toks(&func.block));
+                        let vec_form = "{self.strings.len()==other.strings.len()&&other.strings.iter().enumerate().all(|(key,string)|{K::try_from_usize(key).and_then(|key|self.strings.get(&key)).map(|s|s.value()==string)==Some(true)})}";
+                        let self_form = "{self.strings.len()==other.strings.len()&&self.strings.iter().all(|left|{other.strings.get(left.key()).map(|s|s.value()==left.value())==Some(true)})}";
+                        shape = if body == "{self.strings==other.strings}" {
+                            ".stringsEq".into()
+                        } else if (body == vec_form && rhs != lhs) || (body == self_form && rhs == lhs) {
+                            ".lenAndAllLookup".into()
+                        } else {
+                            format!("(.other {})", lean::s(&body))
+                        };
+                    }
+                }
+            }
+            items.push(format!("{{ lhs := {}, rhs := {}, shape := {} }}", lean::s(&lhs), lean::s(&rhs), shape));
+        }
+    }
+    out.push_str("/-- Every `PartialEq` impl between containers, with the shape of its body. -/\n");
+    out.push_str(&format!("def eqImpls : List EqImpl := {}\n\n", lean::list(&items)));
+}
